@@ -7,6 +7,7 @@ import CookModel.Lemmas.CoverInput
 import CookModel.Lemmas.TableFacts
 import CookModel.Lemmas.CoverAudit
 import CookModel.Lemmas.FragInput
+import CookModel.Lemmas.RecipeText
 /-
   C05  No recipe content is silently dropped.
 
@@ -634,5 +635,76 @@ example : ¬ ErrorFree (pullEvents (α := Rat) toyCharSpec ⟨Gen.EXT_COMPONENT_
   obtain ⟨ev, hev, hk⟩ := List.any_eq_true.1 this
   cases ev <;> simp at hk
   exact h _ hev _ rfl
+
+/-! ## through the analysis (wave 5, partial): what the events carry reaches the RECIPE
+
+    `parseRecipe` = `PullParser` + `RecipeCollector::parse_events`.  When the report has no parse error the
+    collector returns a recipe (`output = some c`).  Proved here for `Text` events (step text and `>` text
+    blocks): the text of the event is a `Text` item of a step of the recipe, or part of the text of a text
+    block (`ContentHas`) — for every input and every mode, by a fold invariant over `parse_events`.
+    NOT proved (see notes/audit-C05.md): components (name / alias / note / unit / value → the ingredient,
+    cookware and timer tables; the name may be split by `parse_reference`), section names, `>>` metadata
+    (a later entry with the same key REPLACES the value in the map; `[mode]`/`[duplicate]` entries are
+    interpreted, not stored), front matter (YAML, external), and the INLINE_QUANTITIES extension (a step
+    text is cut at the inline quantities). -/
+
+/-- **The text of every `Text` event reaches the recipe.**  Let `parse` return a recipe `c` (no parse error)
+    and let the event stream be `pre ++ [Text t] ++ post`.  If the INLINE_QUANTITIES extension is off, the
+    define mode at the moment the event is analysed (`collectorAfter … pre`) is not `components`, and the
+    text is not empty, then some section of `c` has a content item that holds `t.text` (`Text::text()`:
+    fragments joined, a soft line break as one space): a step with the item `Text(t.text)`, or a text block
+    whose text contains `t.text` as a contiguous piece (text blocks and define mode `text` concatenate).
+    Partial: only `Text` events; INLINE_QUANTITIES excluded. -/
+theorem C05_recipe_keeps_text_partial {α : Type} [Arith α] (env : Env) (input : Str)
+    (hiq : env.ext.has Gen.EXT_INLINE_QUANTITIES = false) (c : Col α)
+    (hout : (parseRecipe (α := α) env input).output = some c) (pre post : List (Ev α)) (t : Text)
+    (hsplit : (pullEvents (α := α) env.cs env.ext input).1.toList = pre ++ Ev.text t :: post)
+    (hm : (collectorAfter env input pre ({} : Col α)).defineMode ≠ .components) (hne : t.text ≠ []) :
+    ∃ sec ∈ c.sections, ∃ ct ∈ sec.content, ContentHas t.text ct :=
+  rt_parseRecipe_text env input hiq c hout pre post t hsplit hm hne
+
+/-- … and in define mode `components` (where steps are not stored, only their components) a step text that
+    has a letter or digit is dropped WITH the warning `text-in-components-mode` labelled with the span of the
+    text: not silently. -/
+theorem C05_components_mode_text_warns {α : Type} [Arith α] (env : Env) (t : Text) (items : List Item)
+    (s : Col α) (hb : s.block = some (.step items)) (hm : s.defineMode = .components)
+    (ha : t.text.any env.cs.alnum = true) :
+    (inStepText env t s).2.diags = s.diags.push ⟨.warning, .analysis, "text-in-components-mode", [t.span]⟩ :=
+  rt_components_mode_warns env t items s hb hm ha
+
+/-- **Letters and digits of step text and text blocks appear in the recipe (partial).**  Let `parse` return a
+    recipe `c`.  A character `ch` of the input (`input = a ++ ch :: z`) whose bytes lie inside a fragment `f`
+    — not a soft line break — of the text of a `Text` event of the stream (what `C05_conservation_fragments`
+    provides for step text; the fragment is the source slice at its offset, C04) occurs in a `Text` item of a
+    step of `c` or in a text block of `c` (`RecipeHasChar`), under the conditions of
+    `C05_recipe_keeps_text_partial`.  Partial in the same way. -/
+theorem C05_recipe_keeps_content_partial {α : Type} [Arith α] (env : Env) (input a z : List Char) (ch : Char)
+    (hin : input = a ++ ch :: z) (hiq : env.ext.has Gen.EXT_INLINE_QUANTITIES = false) (c : Col α)
+    (hout : (parseRecipe (α := α) env input).output = some c) (pre post : List (Ev α)) (t : Text)
+    (hsplit : (pullEvents (α := α) env.cs env.ext input).1.toList = pre ++ Ev.text t :: post)
+    (hm : (collectorAfter env input pre ({} : Col α)).defineMode ≠ .components)
+    (f : Frag) (hf : f ∈ t.frags) (hsoft : f.soft = false) (h1 : f.offset ≤ utf8Len a)
+    (h2 : utf8Len a + ch.utf8Size ≤ f.stop) : RecipeHasChar c ch := by
+  have hmem : Ev.text t ∈ (pullEvents (α := α) env.cs env.ext input).1.toList := by rw [hsplit]; simp
+  have hs := rt_pullEvents_text_slices (α := α) env.cs env.ext input t hmem f hf
+  have hc := rt_char_in_text hf hsoft (rt_char_in_frag hin hs h1 h2)
+  have hne : t.text ≠ [] := List.ne_nil_of_mem hc
+  exact rt_hasChar_of_secsHave (rt_parseRecipe_text env input hiq c hout pre post t hsplit hm hne) hc
+
+/-! non-vacuity: `Mix @salt{1} well⏎⏎> note` with the toy environment (no extension).  The second event is the
+    `Text` "Mix "; the define mode after the first event is `all`; the recipe has one section with the step
+    `Mix ` / ingredient 0 / ` well` and the text block `note`. -/
+example : rtToyEnv.ext.has Gen.EXT_INLINE_QUANTITIES = false := by decide
+example : (match (pullEvents (α := Rat) rtToyEnv.cs rtToyEnv.ext "Mix @salt{1} well\n\n> note".toList).1.toList[1]? with
+    | some (Ev.text t) => t.text == "Mix ".toList
+    | _ => false) = true := by decide +kernel
+example : (collectorAfter rtToyEnv "Mix @salt{1} well\n\n> note".toList
+    ((pullEvents (α := Rat) rtToyEnv.cs rtToyEnv.ext "Mix @salt{1} well\n\n> note".toList).1.toList.take 1)
+    ({} : Col Rat)).defineMode = .all := by decide +kernel
+example : ((parseRecipe (α := Rat) rtToyEnv "Mix @salt{1} well\n\n> note".toList).output.map (·.sections)) =
+    some [⟨none, [.step ⟨[.text "Mix ".toList, .ingredient 0, .text " well".toList], 1⟩,
+      .text "note".toList]⟩] := by decide +kernel
+example : ContentHas "Mix ".toList (.step ⟨[.text "Mix ".toList, .ingredient 0, .text " well".toList], 1⟩) := by
+  simp [ContentHas]
 
 end Cook
